@@ -4,6 +4,7 @@ import (
 	"fmt"
 	"reflect"
 	"strings"
+	"time"
 
 	"github.com/hashicorp/eventlogger"
 	"github.com/hashicorp/eventlogger/filters/encrypt"
@@ -26,11 +27,17 @@ type holder struct {
 type rot struct {
 	w          wrapping.Wrapper
 	salt, info []byte
+	slow       time.Duration // the payload's getters are caller code and may take a while
 }
 
-func (r *rot) Wrapper() wrapping.Wrapper { return r.w }
-func (r *rot) HmacSalt() []byte          { return r.salt }
-func (r *rot) HmacInfo() []byte          { return r.info }
+func (r *rot) nap() {
+	if r.slow > 0 {
+		time.Sleep(r.slow)
+	}
+}
+func (r *rot) Wrapper() wrapping.Wrapper { r.nap(); return r.w }
+func (r *rot) HmacSalt() []byte          { r.nap(); return r.salt }
+func (r *rot) HmacInfo() []byte          { r.nap(); return r.info }
 
 func mkMap(c string) TMap {
 	return TMap{"tagged": c + "-tagged", "untagged": c + "-untagged", "n": 42,
@@ -360,6 +367,69 @@ func RunTaggable(policyFile string, seed int64) (*Report, error) {
 	out, perr, pan := process(f, &eventlogger.Event{Type: "t", Payload: &rot{w: NewWrapper("rotated")}, Formatted: map[string][]byte{}})
 	if pan != nil || perr != nil || out != nil {
 		rep.mm(Mismatch{Props: []string{"C09"}, What: "key-rotation payload must be consumed", Vector: "rotation payload", Expected: "(nil, nil)", Observed: fmt.Sprintf("panic=%v err=%v forwarded=%v", pan, perr, out != nil)})
+	}
+	// values of untagged maps are unclassified data: redacted whatever the overrides say about the three classes;
+	// and the dynamic type of every map value is kept (a *string stays a *string, also behind an interface)
+	ovVals := []encrypt.FilterOperation{encrypt.NoOperation, encrypt.RedactOperation, encrypt.EncryptOperation, encrypt.HmacSha256Operation}
+	for oi, secretOp := range ovVals {
+		for _, sensOp := range []encrypt.FilterOperation{encrypt.EncryptOperation, encrypt.NoOperation} {
+			rep.Vectors++
+			rep.Runs++
+			c := fmt.Sprintf("CANARY-ov-%d-%d-%s", seed, oi, sensOp)
+			ps, pb := c+"-ps", []byte(c+"-pb")
+			mkAttrs := func() map[string]interface{} {
+				s2, b2 := ps, append([]byte{}, pb...)
+				return map[string]interface{}{"s": c + "-s", "b": []byte(c + "-b"), "ss": []string{c + "-ss0", c + "-ss1"}, "ps": &s2, "pb": &b2, "n": 7,
+					"deep": map[string]interface{}{"d": c + "-d"}}
+			}
+			type ovPayload struct {
+				Attrs map[string]interface{}
+				Keep  string `class:"sensitive"`
+			}
+			in := &ovPayload{Attrs: mkAttrs(), Keep: c + "-keep"}
+			f := &encrypt.Filter{Wrapper: w, FilterOperationOverrides: map[encrypt.DataClassification]encrypt.FilterOperation{
+				encrypt.SecretClassification: secretOp, encrypt.SensitiveClassification: sensOp, encrypt.PublicClassification: encrypt.RedactOperation}}
+			vec := fmt.Sprintf("untagged map values under overrides secret=%s sensitive=%s public=redact", secretOp, sensOp)
+			out, perr, pan := process(f, &eventlogger.Event{Type: "t", Payload: in, Formatted: map[string][]byte{}})
+			if pan != nil || perr != nil || out == nil {
+				rep.mm(Mismatch{Props: []string{"C09"}, What: "Process with overrides on a payload with an untagged map", Vector: vec, Expected: "forwarded", Observed: fmt.Sprintf("panic=%v err=%v", pan, perr)})
+				continue
+			}
+			op, ok := out.Payload.(*ovPayload)
+			if !ok || op.Attrs == nil {
+				rep.mm(Mismatch{Props: []string{"C10"}, What: "dynamic type of the forwarded payload", Vector: vec, Expected: "*ovPayload", Observed: fmt.Sprintf("%T", out.Payload)})
+				continue
+			}
+			for k, want := range map[string]string{"s": "string", "b": "[]uint8", "ss": "[]string", "ps": "*string", "pb": "*[]uint8", "n": "int", "deep": "map[string]interface {}"} {
+				if got := fmt.Sprintf("%T", op.Attrs[k]); got != want {
+					rep.mm(Mismatch{Props: []string{"C10"}, What: "dynamic type of map value " + k + " in the forwarded payload", Vector: vec, Expected: want, Observed: got})
+				}
+			}
+			flat := map[string]string{}
+			if v, ok := op.Attrs["s"].(string); ok {
+				flat["s"] = v
+			}
+			if v, ok := op.Attrs["b"].([]byte); ok {
+				flat["b"] = string(v)
+			}
+			if v, ok := op.Attrs["ss"].([]string); ok && len(v) == 2 {
+				flat["ss0"], flat["ss1"] = v[0], v[1]
+			}
+			if v, ok := op.Attrs["ps"].(*string); ok && v != nil {
+				flat["ps"] = *v
+			}
+			if v, ok := op.Attrs["pb"].(*[]byte); ok && v != nil {
+				flat["pb"] = string(*v)
+			}
+			if dm, ok := op.Attrs["deep"].(map[string]interface{}); ok {
+				flat["d"], _ = dm["d"].(string)
+			}
+			for k, v := range flat {
+				if v != encrypt.RedactedData {
+					rep.mm(Mismatch{Props: []string{"C09"}, What: "unclassified map value " + k + " is redacted whatever the class overrides are", Vector: vec, Expected: encrypt.RedactedData, Observed: v})
+				}
+			}
+		}
 	}
 	// Taggable values nested in front of ordinary class-tagged fields: whatever the walker does inside the Taggable
 	// struct / map (it passes extra options down), the fields that follow are filtered as their own tags dictate
